@@ -348,6 +348,7 @@ def run(ctx):
         if i == 0:
             ctx.sample({"kernels": src, "result": tb})
     tweezer_kernels(ctx, S)
+    decorator_histories(ctx, S)
     sc = spec_coq(S)
     hd = "(fun k => match k with " + " ".join(f"| {k} => {'true' if v else 'false'}" for k, v in handled.items()) + " end)"
     chunks = [cases[i:i + 60] for i in range(0, len(cases), 60)]
@@ -419,8 +420,106 @@ def tweezer_kernels(ctx, S):
                      " than the unspecialised kernel traced with the spec")
 
 
+def moved_spec():
+    """the zone and constant names of c06_spec with other coordinates and other values"""
+    from bloqade.geometry.dialects.grid import Grid
+    from bloqade.shuttle.arch import ArchSpec, Layout
+    traps = Grid.from_positions([100.0, 101.0, 103.0, 107.0], [50.0, 52.0, 55.0])
+    aux = Grid.from_positions([-20.0, -18.5, -17.0], [11.0, 12.0, 14.0, 18.0])
+    both_t = Grid.from_positions([60.0, 61.5], [2.0, 3.0])
+    park = Grid.from_positions([-9.0, -8.0], [6.5, 7.5])
+    both_s = Grid.from_positions([-71.5, -70.0], [17.0, 19.0])
+    lay = Layout(static_traps={"traps": traps, "aux": aux, "both": both_t}, fillable={"traps"}, has_cz={"traps"},
+                 has_local={"aux"}, special_grid={"park": park, "both": both_s})
+    return ArchSpec(layout=lay, float_constants={"pitch": 1.25, "origin": 0.5, "dup": 8.5}, int_constants={"rows": 2, "zero": 0, "dup": 6})
+
+
+LOOKUP_SRC = '''
+@{DEC}(arch_spec=S, fold={FOLD})
+def root():
+    return (spec.get_static_trap(zone_id="traps"), spec.get_special_grid(grid_id="park"),
+            spec.get_int_constant(constant_id="rows"), spec.get_float_constant(constant_id="pitch"))
+'''
+
+
+def decorator_histories(ctx, S):
+    """kernels of each kind compiled one after the other against DIFFERENT specs in one process: each must carry the values
+    of its own spec (a decorator that remembers an earlier spec, pass or table is a history-dependent injection)"""
+    from bloqade.shuttle.arch import ArchSpec
+    from props import tracer_common as tc
+    S2 = moved_spec()
+    specs = {"A": S, "B": S2}
+    n = 0
+    for dec in ("tweezer", "move", "kernel"):
+        for fold in (True, False):
+            for hist in (("A", "B", "A"), ("B", "B", "A")):
+                for step, name in enumerate(hist):
+                    X = specs[name]
+                    src = LOOKUP_SRC.replace("{DEC}", dec).replace("{FOLD}", str(fold))
+                    rep = {"history_src": src, "decorator": dec, "fold": fold, "history": list(hist), "step": step}
+                    ctx.evaluations += 1
+                    n += 1
+                    try:
+                        from bloqade.shuttle import prelude
+                        got = kernels.define(src, S=X, kernel=prelude.kernel)["root"]()
+                    except Exception as e:
+                        ctx.fail({"kind": "compile-with-spec-refused", "kernel_kind": dec, "error": type(e).__name__, "history": True}, rep,
+                                 f"@{dec}(arch_spec=...) step {step} of history {hist}: {type(e).__name__}: {str(e)[:120]}")
+                        continue
+                    want = (X.layout.static_traps["traps"], X.layout.special_grid["park"], X.int_constants["rows"], X.float_constants["pitch"])
+                    ok = tuple(got) == want
+                    ctx.hist("decorator histories", f"{dec}: " + ("own spec" if ok else "ANOTHER SPEC"))
+                    if not ok:
+                        ctx.fail({"kind": "behaviour-differs", "kernel_kind": dec, "history": True}, rep,
+                                 f"@{dec}(arch_spec={name}, fold={fold}) compiled at step {step} of the history {hist} returns rows={got[2]}, pitch={got[3]} "
+                                 f"(its own spec says rows={want[2]}, pitch={want[3]})")
+    # the moving tweezer kernel, compiled against A, B, A and traced without a spec
+    for step, name in enumerate(("A", "B", "A")):
+        X = specs[name]
+        rep = {"history_src": TWEEZER_SRC.replace("{DEC}", "(arch_spec=S)"), "decorator": "tweezer", "history": ["A", "B", "A"], "step": step, "traced": True}
+        ctx.evaluations += 1
+        n += 1
+        try:
+            plain = kernels.define(TWEEZER_SRC.replace("{DEC}", ""), S=X)["main"]
+            st0, ref = tc.run_impl(plain, (1,), X)
+            m = kernels.define(TWEEZER_SRC.replace("{DEC}", "(arch_spec=S)"), S=X)["main"]
+            st, r = tc.run_impl(m, (1,), ArchSpec())
+        except Exception as e:
+            ctx.fail({"kind": "compile-with-spec-refused", "kernel_kind": "tweezer", "error": type(e).__name__, "history": True}, rep, f"{type(e).__name__}: {str(e)[:120]}")
+            continue
+        same = st0 == "ok" and st == "ok" and tc.abstract_path(r) == tc.abstract_path(ref)
+        ctx.hist("decorator histories", "traced tweezer: " + ("own spec" if same else "ANOTHER SPEC"))
+        if not same:
+            ctx.fail({"kind": "behaviour-differs", "kernel_kind": "tweezer", "history": True}, rep,
+                     f"@tweezer(arch_spec={name}) compiled at step {step} of the history A, B, A traces another path than the unspecialised kernel against {name}")
+    ctx.count("kernels compiled in histories that alternate between two specs", n)
+
+
 def replay(data):
     inp = data["input"]
+    if "history_src" in inp:
+        S, S2 = c06_spec(), moved_spec()
+        specs = {"A": S, "B": S2}
+        bad = False
+        if inp.get("traced"):
+            from bloqade.shuttle.arch import ArchSpec
+            from props import tracer_common as tc
+            for name in inp["history"]:
+                X = specs[name]
+                plain = kernels.define(TWEEZER_SRC.replace("{DEC}", ""), S=X)["main"]
+                m = kernels.define(inp["history_src"], S=X)["main"]
+                a, b = tc.run_impl(m, (1,), ArchSpec()), tc.run_impl(plain, (1,), X)
+                bad = bad or a[0] != "ok" or tc.abstract_path(a[1]) != tc.abstract_path(b[1])
+            return bad, "history replayed"
+        for name in inp["history"]:
+            X = specs[name]
+            try:
+                from bloqade.shuttle import prelude
+                got = tuple(kernels.define(inp["history_src"], S=X, kernel=prelude.kernel)["root"]())
+            except Exception:
+                return True, "refused"
+            bad = bad or got != (X.layout.static_traps["traps"], X.layout.special_grid["park"], X.int_constants["rows"], X.float_constants["pitch"])
+        return bad, "history replayed"
     if "src" not in inp:
         return True, "re-run bin/check C06 (reflected table)"
     from bloqade.shuttle.arch import ArchSpecInterpreter
